@@ -3,140 +3,318 @@
  *
  * Property: a DNF built through dnfAtom/dnfNotAtom/dnfAnd/dnfOr/dnfNot/dnfTrue/dnfFalse is logically
  * equivalent to the formula it was built from, and dnfImplies/dnfEqual agree with truth tables.
- * Formulas here are BUILT THROUGH THE PUBLIC CONSTRUCTORS ONLY (so every DNF met is a reachable one):
- *      R = [not] ( [not](L1 op1 L2)  op3  [not](L3 op2 L4) ),   Li = a literal over atoms 1..DN_ATOMS
- * with literals and negations symbolic and the connectives op1..op3 fixed per job (all 8 choices run).
- * The truth value of every node is tracked alongside under a symbolic valuation v (= all 2^n rows). */
+ *
+ * Shape of the check (induction over the construction of a formula):
+ *   base : dnfTrue/dnfFalse/dnfAtom/dnfNotAtom have the truth table of the constant / literal
+ *   step : for ARBITRARY well-formed DNFs X, Y (DN_TX and DN_TY terms of <= DN_ATOMS literals each, literals
+ *          symbolic) and a symbolic valuation v (= every row of the truth table):
+ *              eval(dnfAnd(X,Y), v) == eval(X,v) && eval(Y,v)      likewise dnfOr, dnfNot
+ *              dnfImplies(X,Y) ==> (eval(X,v) ==> eval(Y,v))       dnfEqual(X,Y) ==> same value
+ *          and the result is well formed again.
+ * Well formed = what the constructors produce: no null term, literals of a term strictly increasing in
+ * |atom| (so no atom twice), and no term of a DNF syntactically implied by another (dnfOrMerge removes
+ * those).  A failing step is then exhibited through the public constructors alone (h_dnf_witness_*).
+ * Symbolic formulas built by nesting the real constructors are beyond the tool (symbolic shapes of
+ * symbolic shapes: no result in 300 s for 4 leaves), hence the induction form.  BOUNDED by DN_ATOMS, DN_TX, DN_TY. */
 #include "vharness.h"
+#include "axlgen.h"
+#include "store.h"
+#include "dnf.h"
+
+/* allocator stub.  dnf.c uses the struct hack (a term with k literals gets room for exactly k ints after the
+ * count).  The verifier can neither follow that on objects smaller than the declared struct nor propagate
+ * constants through untyped byte objects (then every loop bound becomes symbolic).  So the two allocation
+ * sites of dnf.c (dnfAndNew, dnfOrNew) are routed -- by a macro on the NAME stoAlloc only, the unit's text is
+ * untouched -- to a stub that hands out one whole, typed `struct dnf_And` / `struct dnf_Or` (NARY = 10
+ * slots; a bigger request is a failed obligation: part of the bound).  The first slot PAST the requested
+ * count is a guard value, remembered in a ghost table and checked by the harness: a write just past the
+ * requested size is a failed obligation. */
+#define DN_GUARD  0x5AFE5AFE
+#define DN_MAXOBJ 64
+static struct dnf_And	*g_tobj[DN_MAXOBJ];	/* terms handed out, and how many literals were asked for */
+static unsigned long	g_tlen[DN_MAXOBJ];
+static int		g_ntobj;
+static MostAlignedType *v_alloc(const char *fn, ULong size)
+{
+	if (fn[3] == 'A') {		/* dnfAndNew */
+		struct dnf_And *t = malloc(sizeof(struct dnf_And));
+		unsigned long k = (size - (sizeof(struct dnf_And) - NARY * sizeof(DNF_Atom))) / sizeof(DNF_Atom);
+#ifndef NATIVE_REPLAY
+		__CPROVER_assume(t != 0);
+		__CPROVER_assert(k <= NARY, "CHECK allocator stub: term has at most NARY literals (bound of this job)");
+#endif
+		if (k < NARY) t->argv[k] = DN_GUARD;
+		if (g_ntobj < DN_MAXOBJ) { g_tobj[g_ntobj] = t; g_tlen[g_ntobj] = k; }
+		g_ntobj++;
+		return (MostAlignedType *) t;
+	}
+	else {				/* dnfOrNew */
+		struct dnf_Or *d = malloc(sizeof(struct dnf_Or));
+#ifndef NATIVE_REPLAY
+		__CPROVER_assume(d != 0);
+		__CPROVER_assert(size <= sizeof(struct dnf_Or), "CHECK allocator stub: DNF has at most NARY terms (bound of this job)");
+#endif
+		return (MostAlignedType *) d;
+	}
+}
+#define stoAlloc(code, size) v_alloc(__func__, (size))
 #include "dnf.c"
+#undef stoAlloc
 #define V_STUB_BUG_UNREACHABLE
 #include "stubs.h"
-
-/* allocator stub: exactly the requested size (dnf.c uses the struct hack: a term with k literals is
- * allocated with room for exactly k), so that a write past the requested size is trapped */
-MostAlignedType *stoAlloc(unsigned code, ULong size)
-{
-	void *p = malloc(size ? size : 1);
-#ifndef NATIVE_REPLAY
-	__CPROVER_assume(p != 0);
-#endif
-	return (MostAlignedType *) p;
-}
 void stoFree(Pointer p) { (void) p; }
+static int dn_guards_intact(void)
+{
+	int k, ok = 1;
+	for (k = 0; k < DN_MAXOBJ; k++)
+		if (k < g_ntobj && g_tlen[k] < NARY && g_tobj[k]->argv[g_tlen[k]] != DN_GUARD) ok = 0;
+	return ok && g_ntobj <= DN_MAXOBJ;
+}
 
 #ifndef DN_ATOMS
 #define DN_ATOMS 3
 #endif
-#ifndef DN_OP1			/* 0 = and, 1 = or */
-#define DN_OP1 0
+#ifndef DN_TX
+#define DN_TX 1
 #endif
-#ifndef DN_OP2
-#define DN_OP2 0
-#endif
-#ifndef DN_OP3
-#define DN_OP3 1
-#endif
-#ifndef DN_TOPNOT		/* 1: R may be negated once more at the top (much larger intermediate DNFs) */
-#define DN_TOPNOT 0
+#ifndef DN_TY
+#define DN_TY 1
 #endif
 #ifndef DN_MAXT
-#define DN_MAXT 6		/* walk bounds of the evaluator (terms, literals); exceeded = failed obligation */
+#define DN_MAXT 10		/* walk bound of the evaluator (terms); exceeded = failed obligation */
 #endif
-#define DN_MAXL 4
 
 static int g_v[DN_ATOMS + 1];	/* the valuation: g_v[a] is the truth value of atom a */
 
-/* truth value of a DNF under g_v; *wf is cleared if the representation invariant is broken:
- * every term non-null, literals over atoms 1..DN_ATOMS, strictly increasing in |atom| */
+static int dn_term_wf(DNF_And t)
+{
+	int j, a, prev = 0, ok = 1;
+	if (!t || t->argc > DN_ATOMS) return 0;
+	for (j = 0; j < DN_ATOMS; j++) if (j < (int) t->argc) {
+		a = t->argv[j] < 0 ? -t->argv[j] : t->argv[j];
+		if (a < 1 || a > DN_ATOMS || a <= prev) ok = 0;
+		prev = a;
+	}
+	return ok;
+}
+static int dn_term_eval(DNF_And t)
+{
+	int j, a, tv = 1;
+	for (j = 0; j < DN_ATOMS; j++) if (j < (int) t->argc) {
+		a = t->argv[j] < 0 ? -t->argv[j] : t->argv[j];
+		if (a >= 1 && a <= DN_ATOMS && (t->argv[j] > 0) != (g_v[a] != 0)) tv = 0;
+	}
+	return tv;
+}
+/* every literal of y occurs in x: the syntactic "x implies y" for consistent sorted terms */
+static int dn_term_subsumes(DNF_And x, DNF_And y)
+{
+	int i, j, all = 1, found;
+	for (j = 0; j < DN_ATOMS; j++) if (j < (int) y->argc) {
+		found = 0;
+		for (i = 0; i < DN_ATOMS; i++) if (i < (int) x->argc && x->argv[i] == y->argv[j]) found = 1;
+		if (!found) all = 0;
+	}
+	return all;
+}
+/* truth value of a DNF under g_v; *wf is cleared if it is not well formed */
 static int dn_eval(DNF x, int *wf)
 {
-	int i, j, val = 0, tv, a, prev;
+	int i, k, val = 0;
 	if (x->argc < 0 || x->argc > DN_MAXT) { *wf = 0; return 0; }
-	for (i = 0; i < x->argc; i++) {
-		DNF_And t = x->argv[i];
-		if (!t || t->argc > DN_MAXL) { *wf = 0; continue; }
-		tv = 1; prev = 0;
-		for (j = 0; j < (int) t->argc; j++) {
-			a = t->argv[j] < 0 ? -t->argv[j] : t->argv[j];
-			if (a < 1 || a > DN_ATOMS || a <= prev) { *wf = 0; continue; }
-			prev = a;
-			if ((t->argv[j] > 0) != (g_v[a] != 0)) tv = 0;
-		}
-		if (tv) val = 1;
+	for (i = 0; i < DN_MAXT; i++) if (i < x->argc) {
+		if (!dn_term_wf(x->argv[i])) { *wf = 0; continue; }
+		if (dn_term_eval(x->argv[i])) val = 1;
 	}
 	return val;
 }
 
 #define NODE_CHECK(what, d, expect) do { int wf_ = 1; \
 	CHECK(what ": same truth value as the formula it was built from", dn_eval(d, &wf_) == ((expect) != 0)); \
-	CHECK(what ": representation invariant (terms sorted by atom, no atom twice)", wf_); } while (0)
+	CHECK(what ": result well formed (no null term, literals sorted by atom, no atom twice)", wf_); } while (0)
 
-static DNF dn_lit(int atom, int neg)	{ return neg ? dnfNotAtom(atom) : dnfAtom(atom); }
-static DNF dn_op(int op, DNF x, DNF y)	{ return op ? dnfOr(x, y) : dnfAnd(x, y); }
-#define OPV(op, p, q)	((op) ? ((p) || (q)) : ((p) && (q)))
-#define LITV(a, n)	((n) ? !g_v[a] : g_v[a])
+/* (element-wise self-assignment: makes each array element show up in the verifier's trace so that the driver
+ * can hand the counterexample to the native replay; no effect on the values) */
+#define TRACE_ARR(x, n) do { int t_; for (t_ = 0; t_ < (n); t_++) x[t_] = x[t_]; } while (0)
+#define VALUATION \
+	INPUT_ARR(unsigned char, v, DN_ATOMS + 1); int vi_; \
+	for (vi_ = 0; vi_ <= DN_ATOMS; vi_++) { ASSUME(v[vi_] <= 1); g_v[vi_] = v[vi_]; }
 
-#define FORMULA_INPUTS \
-	INPUT_ARR(unsigned char, v, DN_ATOMS + 1); INPUT_ARR(unsigned char, la, 4); INPUT_ARR(unsigned char, ln, 4); \
-	INPUT(unsigned char, nA); INPUT(unsigned char, nB); INPUT(unsigned char, nR); \
-	int i; \
-	for (i = 0; i <= DN_ATOMS; i++) { ASSUME(v[i] <= 1); g_v[i] = v[i]; } \
-	for (i = 0; i < 4; i++) ASSUME(la[i] >= 1 && la[i] <= DN_ATOMS && ln[i] <= 1); \
-	ASSUME(nA <= 1 && nB <= 1 && nR <= DN_TOPNOT)
-
-/* build R and check every node on the way */
-void h_dnf_formula(void)
+/* an arbitrary well-formed DNF with T terms, made with the real dnfOrNew/dnfAndNew and filled in */
+static DNF dn_arbitrary(int T, const unsigned char *len, const int *lit)
 {
-	FORMULA_INPUTS;
-	DNF L1 = dn_lit(la[0], ln[0]), L2 = dn_lit(la[1], ln[1]), L3 = dn_lit(la[2], ln[2]), L4 = dn_lit(la[3], ln[3]);
-	int l1 = LITV(la[0], ln[0]), l2 = LITV(la[1], ln[1]), l3 = LITV(la[2], ln[2]), l4 = LITV(la[3], ln[3]);
-	NODE_CHECK("literal", L1, l1);
-	DNF A = dn_op(DN_OP1, L1, L2); int a = OPV(DN_OP1, l1, l2);
-	NODE_CHECK("L1 op L2", A, a);
-	DNF B = dn_op(DN_OP2, L3, L4); int b = OPV(DN_OP2, l3, l4);
-	NODE_CHECK("L3 op L4", B, b);
-	if (nA) { A = dnfNot(A); a = !a; NODE_CHECK("not (L1 op L2)", A, a); }
-	if (nB) { B = dnfNot(B); b = !b; NODE_CHECK("not (L3 op L4)", B, b); }
-	DNF R = dn_op(DN_OP3, A, B); int r = OPV(DN_OP3, a, b);
-#ifndef CANARY_dnf_formula
-	NODE_CHECK("A op B", R, r);
-#else	/* canary: and/or confused at the top */
-	NODE_CHECK("canary A op B", R, OPV(!DN_OP3, a, b));
+	int i, j, k;
+	DNF d = dnfOrNew(T);
+	for (i = 0; i < T; i++) {
+		ASSUME(len[i] <= DN_ATOMS);
+		d->argv[i] = dnfAndNew(len[i]);
+		for (j = 0; j < DN_ATOMS; j++) if (j < len[i]) d->argv[i]->argv[j] = lit[i * DN_ATOMS + j];
+		ASSUME(dn_term_wf(d->argv[i]));
+	}
+	for (i = 0; i < T; i++) for (k = 0; k < T; k++)
+		if (i != k) ASSUME(!dn_term_subsumes(d->argv[i], d->argv[k]));	/* merged: no term implied by another */
+	return d;
+}
+#define ARBITRARY_XY \
+	VALUATION; \
+	INPUT_ARR(unsigned char, xlen, DN_TX); INPUT_ARR(int, xlit, DN_TX * DN_ATOMS); \
+	INPUT_ARR(unsigned char, ylen, DN_TY); INPUT_ARR(int, ylit, DN_TY * DN_ATOMS); \
+	TRACE_ARR(v, DN_ATOMS + 1); TRACE_ARR(xlen, DN_TX); TRACE_ARR(xlit, DN_TX * DN_ATOMS); \
+	TRACE_ARR(ylen, DN_TY); TRACE_ARR(ylit, DN_TY * DN_ATOMS); \
+	int wfx = 1, wfy = 1; \
+	DNF X = dn_arbitrary(DN_TX, xlen, xlit), Y = dn_arbitrary(DN_TY, ylen, ylit); \
+	int xv = dn_eval(X, &wfx), yv = dn_eval(Y, &wfy); \
+	CHECK("harness: the constructed DNFs are well formed", wfx && wfy)
+
+void h_dnf_or(void)
+{
+	ARBITRARY_XY;
+	DNF R = dnfOr(X, Y);
+#ifndef CANARY_dnf_or
+	NODE_CHECK("dnfOr(X,Y)", R, xv || yv);
+#else	/* canary: or confused with and */
+	NODE_CHECK("canary dnfOr(X,Y)", R, xv && yv);
 #endif
-	if (nR) { R = dnfNot(R); r = !r; NODE_CHECK("not (A op B)", R, r); }
-	/* the decision procedures must be sound: a positive answer holds in every row of the truth table */
-	CHECK("dnfImplies(A, R) only if A => R", !dnfImplies(A, R) || !a || r);
-	CHECK("dnfImplies(R, A) only if R => A", !dnfImplies(R, A) || !r || a);
-	CHECK("dnfImplies(A, B) only if A => B", !dnfImplies(A, B) || !a || b);
-	CHECK("dnfEqual(A, B) only if A <=> B", !dnfEqual(A, B) || a == b);
-	CHECK("dnfEqual(R, B) only if R <=> B", !dnfEqual(R, B) || r == b);
-	CHECK("dnfIsTrue(R) only if R holds", !dnfIsTrue(R) || r);
-	CHECK("dnfIsFalse(R) only if R does not hold", !dnfIsFalse(R) || !r);
+	CHECK("dnfOr: no write past an allocation", dn_guards_intact());
+	CHECK("dnfOr: arguments keep their meaning", dn_eval(X, &wfx) == xv && dn_eval(Y, &wfy) == yv && wfx && wfy);
 	VREACH();
 }
 
-/* constants */
+void h_dnf_and(void)
+{
+	ARBITRARY_XY;
+	DNF R = dnfAnd(X, Y);
+	NODE_CHECK("dnfAnd(X,Y)", R, xv && yv);
+	CHECK("dnfAnd: no write past an allocation", dn_guards_intact());
+	CHECK("dnfAnd: arguments keep their meaning", dn_eval(X, &wfx) == xv && dn_eval(Y, &wfy) == yv && wfx && wfy);
+	VREACH();
+}
+
+void h_dnf_not(void)
+{
+	VALUATION;
+	INPUT_ARR(unsigned char, xlen, DN_TX); INPUT_ARR(int, xlit, DN_TX * DN_ATOMS);
+	TRACE_ARR(v, DN_ATOMS + 1); TRACE_ARR(xlen, DN_TX); TRACE_ARR(xlit, DN_TX * DN_ATOMS);
+	int wfx = 1;
+	DNF X = dn_arbitrary(DN_TX, xlen, xlit);
+	int xv = dn_eval(X, &wfx);
+	DNF R = dnfNot(X);
+	NODE_CHECK("dnfNot(X)", R, !xv);
+	CHECK("dnfNot: no write past an allocation", dn_guards_intact());
+	VREACH();
+}
+
+/* the decision procedures: a positive answer must hold in every row of the truth table */
+void h_dnf_implies(void)
+{
+	ARBITRARY_XY;
+#ifndef CANARY_dnf_implies
+	CHECK("dnfImplies(X,Y) only if X => Y", !dnfImplies(X, Y) || !xv || yv);
+#else	/* canary: direction reversed */
+	CHECK("canary dnfImplies", !dnfImplies(X, Y) || !yv || xv);
+#endif
+	CHECK("dnfEqual(X,Y) only if X <=> Y", !dnfEqual(X, Y) || xv == yv);
+	CHECK("dnfImplies(X,X), dnfEqual(X,X)", dnfImplies(X, X) && dnfEqual(X, X));
+	CHECK("dnfIsTrue(X) only if X holds, dnfIsFalse(X) only if it does not", (!dnfIsTrue(X) || xv) && (!dnfIsFalse(X) || !xv));
+	VREACH();
+}
+
+/* term level, both directions: for well-formed terms dnfAndImplies is exactly "every literal of y is in x",
+ * which for satisfiable terms is exactly truth-table implication */
+void h_dnf_term_implies(void)
+{
+	VALUATION;
+	INPUT_ARR(unsigned char, xlen, 1); INPUT_ARR(int, xlit, DN_ATOMS);
+	INPUT_ARR(unsigned char, ylen, 1); INPUT_ARR(int, ylit, DN_ATOMS);
+	TRACE_ARR(v, DN_ATOMS + 1); TRACE_ARR(xlen, 1); TRACE_ARR(xlit, DN_ATOMS); TRACE_ARR(ylen, 1); TRACE_ARR(ylit, DN_ATOMS);
+	DNF X = dn_arbitrary(1, xlen, xlit), Y = dn_arbitrary(1, ylen, ylit);
+	Bool r = dnfAndImplies(X->argv[0], Y->argv[0]);
+	CHECK("dnfAndImplies(x,y) == every literal of y occurs in x", (r != 0) == (dn_term_subsumes(X->argv[0], Y->argv[0]) != 0));
+	CHECK("dnfAndImplies(x,y) only if x => y", !r || !dn_term_eval(X->argv[0]) || dn_term_eval(Y->argv[0]));
+	VREACH();
+}
+
+/* term level: dnfAndMerge is conjunction; NULL exactly for a contradiction */
+void h_dnf_term_merge(void)
+{
+	VALUATION;
+	INPUT_ARR(unsigned char, xlen, 1); INPUT_ARR(int, xlit, DN_ATOMS);
+	INPUT_ARR(unsigned char, ylen, 1); INPUT_ARR(int, ylit, DN_ATOMS);
+	TRACE_ARR(v, DN_ATOMS + 1); TRACE_ARR(xlen, 1); TRACE_ARR(xlit, DN_ATOMS); TRACE_ARR(ylen, 1); TRACE_ARR(ylit, DN_ATOMS);
+	DNF X = dn_arbitrary(1, xlen, xlit), Y = dn_arbitrary(1, ylen, ylit);
+	int xv = dn_term_eval(X->argv[0]), yv = dn_term_eval(Y->argv[0]);
+	DNF_And r = dnfAndMerge(X->argv[0], Y->argv[0]);
+	CHECK("dnfAndMerge: NULL only for a contradiction", r != 0 || !(xv && yv));
+	CHECK("dnfAndMerge: otherwise the conjunction, well formed", r == 0 || (dn_term_wf(r) && dn_term_eval(r) == (xv && yv)));
+	CHECK("dnfAndMerge: no write past an allocation", dn_guards_intact());
+	VREACH();
+}
+
+/* the simplification step of dnfOrMerge: whenever dnfAndImpliesNegation(x,y) allows it, x is replaced by
+ * dnfAndCancelNegation(x,y); the disjunction x \/ y must keep its truth table */
+void h_dnf_term_cancel(void)
+{
+	VALUATION;
+	INPUT_ARR(unsigned char, xlen, 1); INPUT_ARR(int, xlit, DN_ATOMS);
+	INPUT_ARR(unsigned char, ylen, 1); INPUT_ARR(int, ylit, DN_ATOMS);
+	TRACE_ARR(v, DN_ATOMS + 1); TRACE_ARR(xlen, 1); TRACE_ARR(xlit, DN_ATOMS); TRACE_ARR(ylen, 1); TRACE_ARR(ylit, DN_ATOMS);
+	DNF X = dn_arbitrary(1, xlen, xlit), Y = dn_arbitrary(1, ylen, ylit);
+	int xv = dn_term_eval(X->argv[0]), yv = dn_term_eval(Y->argv[0]);
+	if (dnfAndImpliesNegation(X->argv[0], Y->argv[0])) {
+		DNF_And r = dnfAndCancelNegation(X->argv[0], Y->argv[0]);
+		CHECK("dnfAndCancelNegation: no write past the allocated term", dn_guards_intact());
+		CHECK("dnfAndCancelNegation: result well formed", dn_term_wf(r));
+		CHECK("dnfAndCancelNegation: (x' or y) has the truth table of (x or y)", (dn_term_eval(r) || yv) == (xv || yv));
+	}
+	VREACH();
+}
+
+/* ---- base cases and witnesses: formulas built through the public constructors only (concrete shapes) */
 void h_dnf_consts(void)
 {
-	INPUT_ARR(unsigned char, v, DN_ATOMS + 1); INPUT(unsigned char, at); INPUT(unsigned char, neg);
-	int i;
-	for (i = 0; i <= DN_ATOMS; i++) { ASSUME(v[i] <= 1); g_v[i] = v[i]; }
+	VALUATION;
+	INPUT(unsigned char, at); INPUT(unsigned char, neg);
 	ASSUME(at >= 1 && at <= DN_ATOMS && neg <= 1);
-	DNF x = dn_lit(at, neg); int xv = LITV(at, neg);
+	DNF x = neg ? dnfNotAtom(at) : dnfAtom(at);
+	int xv = neg ? !g_v[at] : g_v[at];
+	NODE_CHECK("dnfAtom/dnfNotAtom", x, xv);
 	NODE_CHECK("dnfTrue", dnfTrue(), 1);
 	NODE_CHECK("dnfFalse", dnfFalse(), 0);
-	CHECK("dnfIsTrue(dnfTrue()), dnfIsFalse(dnfFalse())", dnfIsTrue(dnfTrue()) && dnfIsFalse(dnfFalse()) && !dnfIsTrue(dnfFalse()) && !dnfIsFalse(dnfTrue()));
+	CHECK("dnfIsTrue/dnfIsFalse on the constants", dnfIsTrue(dnfTrue()) && dnfIsFalse(dnfFalse()) && !dnfIsTrue(dnfFalse()) && !dnfIsFalse(dnfTrue()));
 	NODE_CHECK("x and true", dnfAnd(x, dnfTrue()), xv);
 	NODE_CHECK("x and false", dnfAnd(x, dnfFalse()), 0);
 	NODE_CHECK("x or true", dnfOr(x, dnfTrue()), 1);
 	NODE_CHECK("x or false", dnfOr(x, dnfFalse()), xv);
 	NODE_CHECK("not true", dnfNot(dnfTrue()), 0);
 	NODE_CHECK("not false", dnfNot(dnfFalse()), 1);
-	NODE_CHECK("x and not x", dnfAnd(x, dnfNot(x)), 0);
-	NODE_CHECK("x or not x", dnfOr(x, dnfNot(x)), 1);
+	NODE_CHECK("not x", dnfNot(x), !xv);
 	NODE_CHECK("copy", dnfCopy(x), xv);
 	CHECK("false implies everything, everything implies true", dnfImplies(dnfFalse(), x) && dnfImplies(x, dnfTrue()));
-	CHECK("x implies x, x equals x", dnfImplies(x, x) && dnfEqual(x, dnfCopy(x)));
+	VREACH();
+}
+
+/* (a and b) or (not a and not b), and its use: the formula is not a tautology */
+void h_dnf_witness_or(void)
+{
+	VALUATION;
+	DNF ab = dnfAnd(dnfAtom(1), dnfAtom(2));
+	DNF nanb = dnfAnd(dnfNotAtom(1), dnfNotAtom(2));
+	NODE_CHECK("a and b", ab, g_v[1] && g_v[2]);
+	NODE_CHECK("not a and not b", nanb, !g_v[1] && !g_v[2]);
+	DNF r = dnfOr(ab, nanb);
+	NODE_CHECK("(a and b) or (not a and not b)", r, (g_v[1] && g_v[2]) || (!g_v[1] && !g_v[2]));
+	CHECK("(a and b) or (not a and not b) is not reported true", !dnfIsTrue(r));
+	VREACH();
+}
+
+/* (a and not b) or b: the simplification that is sound (one-literal y) but writes past the new term */
+void h_dnf_witness_cancel_overflow(void)
+{
+	VALUATION;
+	DNF anb = dnfAnd(dnfAtom(1), dnfNotAtom(2));
+	DNF r = dnfOr(anb, dnfAtom(2));
+	NODE_CHECK("(a and not b) or b", r, (g_v[1] && !g_v[2]) || g_v[2]);
+	CHECK("(a and not b) or b: no write past an allocation", dn_guards_intact());
 	VREACH();
 }
 
